@@ -160,7 +160,40 @@ def rule_r7(ctx):
                 r.ob(f, "re-arm line %s after the message was disposed of" % s.line)
 
 
+def rule_r8(ctx):
+    r = ctx.rule("C09.R8", "T10", "waiting operations are served in arrival order: a user aio is never put into a wait list with "
+                 "nni_list_prepend / nni_list_insert_before / nni_list_insert_after, and never taken with nni_list_last "
+                 "(tail append, head service everywhere)", floor=40)
+    prog = ctx.prog
+    n_app = 0
+    for f in prog.functions:
+        if f.cfg_failed:
+            continue
+        for c in f.calls(("nni_list_append", "nni_aio_list_append")):
+            a = f.expand(c.node["args"][-1])
+            if a is not None and "aio" in (a.get("t") or ""):
+                n_app += 1
+        for c in f.calls(("nni_list_prepend", "nni_list_insert_before", "nni_list_insert_after")):
+            a = f.expand(c.node["args"][1]) if len(c.node["args"]) > 1 else None
+            if a is not None and "aio" in (a.get("t") or ""):
+                ctx.fail(r, f, "%s of a waiting aio" % c.node["fn"], c.line,
+                         "%s puts the operation %s in front of (or inside) the wait list %s: operations that were posted earlier "
+                         "are served later, so one peer's messages are handed out in the wrong order"
+                         % (c.node["fn"], show(a), show(f.expand(c.node["args"][0]))))
+    if n_app < 40:
+        raise AnalysisBroken("only %d tail appends of user aios seen" % n_app)
+    r.obligations += n_app
+    r.discharged += n_app
+    r.samples.append("%d tail appends of aios, no prepend/insert of an aio anywhere" % n_app)
+
+
 def run(ctx):
     ctx.guard(rule_r1)
     ctx.guard(rule_r3)
     ctx.guard(rule_r7)
+    ctx.guard(rule_r8)
+    from . import c13
+    ctx.guard(c13.rule_r6)
+    for rr in ctx.rules:
+        if rr.id == "C13.R6":
+            rr.id = "C09.R9"
